@@ -561,12 +561,12 @@ func genPrefix(t *rapid.T) (string, bool) {
 
 // ---- the check ---------------------------------------------------------------------------------------
 
-const rule = "Templates = prefix + [setup] + context opener + ONE failing tag + tail + gap + context closer + suffix. " +
-	"Prefixes: 27 table pieces (text, empty lines, ok tags, silent tags holding multi-line double- and back-quoted strings incl. escaped quotes and tag delimiters, " +
+var rule = "Templates = prefix + [setup] + context opener + ONE failing tag + tail + gap + context closer + suffix. " +
+	fmt.Sprintf("Prefixes: %d table pieces", len(prefixes)) + " (text, empty lines, ok tags, silent tags holding multi-line double- and back-quoted strings incl. escaped quotes and tag delimiters, " +
 	"multi-line <%# %> comments, # line comments, CRLF, multi-line code tags and hash literals, escaped openers, multi-byte text, if/else/for/function/block-helper blocks, taken and not taken) " +
 	"and, in the random phase, sequences of 0..8 pieces mixed with random text lines, random multi-line strings and comments. " +
-	"Failing tags: 58 kinds in 12 families (unknown identifier, failing helper, type error, index out of range, division by zero, unbalanced ( [ {, missing { or ( ), illegal character, malformed let, " +
-	"if without condition, for without in, break/continue outside a loop, over-long number literal, tag or string unterminated at the end of input), each in 6 layouts (one line; line feeds or CR LF between all tokens, " +
+	fmt.Sprintf("Failing tags: %d kinds (", len(kinds)) + "unknown identifier, failing helper, type error, index out of range, division by zero, unbalanced ( [ {, missing { or ( ), illegal character, malformed let, " +
+	"if without condition, for without in, break/continue outside a loop, over-long number literal, tag or string unterminated at the end of input, faults in else / else-if continuation tags), each in 6 layouts (one line; line feeds or CR LF between all tokens, " +
 	"after the opener, before the last token, inside a string). Contexts: top level (start of line and mid-line), if, else, for, function body (called later), block helper, if-in-for on one line. " +
 	"Gaps after the failing construct: none, space, LF, space LF, CR LF; 4 suffixes. " +
 	"Oracle (from the statement, by counting line feeds in the generated text, never from the lexer): (1) every message line of the error starts with 'line N: '; " +
@@ -578,6 +578,7 @@ func setup(t *testing.T) *vk.Run {
 	r := vk.Start(t, "C15", rule,
 		"a line end is LF or CR LF; a lone CR is not generated (the statement does not say whether it ends a line)",
 		"only N of the first message of a multi-message parse error is compared with the failing tag; follow-on messages must carry a prefix and shift, their N is not fixed by the statement",
+		"a fault inside an else / else-if continuation tag: any line from the tag that opens the if-statement to the continuation tag is accepted (the statement does not say which of them 'contains the failing statement'; the tree names the opening tag for run-time faults and the continuation tag for syntax faults)",
 		"when no error is returned at all the case is counted under excluded (subject of C05), a panic likewise (C03/C04)",
 		"# line comments are generated only where the byte after the following token is white space (AF-05 swallows that byte; subject of C18)")
 	r.Replayer("line", func(raw json.RawMessage) *vk.Fail {
